@@ -20,7 +20,10 @@ import (
 
 type atomicCountWriter struct{ n int64 }
 
-func (w *atomicCountWriter) Write(p []byte) (int, error) { atomic.AddInt64(&w.n, 1); return len(p), nil }
+func (w *atomicCountWriter) Write(p []byte) (int, error) {
+	atomic.AddInt64(&w.n, 1)
+	return len(p), nil
+}
 
 func concurrentThroughLoggers(c *Ctx) {
 	zerolog.SetGlobalLevel(zerolog.TraceLevel)
